@@ -184,11 +184,12 @@ def c02(tier, seed):
 
 
 def c10(tier, seed):
-    return _verus_prop("C10", tier, seed, [("layout", r"::(blob|Layout::known_type_for_size|Layout::for_size_internal|Layout::for_size|integer_type|bitfield_unit|Layout::new|align_to)::", None),
+    return _verus_prop("C10", tier, seed, [("layout", r"::(blob|Layout::known_type_for_size|Layout::for_size_internal|Layout::for_size|integer_type|bitfield_unit|Layout::new|align_to|comp_tail_layout)::", None), ("opaque", None, None),
                                            ("constrain", r"::CannotDerive::constrain_type::", None), ("blocklist", None, None), ("repr", None, None)], {
         "trusted_base": LAYOUT_TRUST,
         "functions_under_contract": ["bindgen/codegen/helpers.rs: blob, integer_type, bitfield_unit", "bindgen/ir/layout.rs: Layout::{known_type_for_size, new, for_size_internal, for_size}",
-                                     "bindgen/ir/item.rs: Item::is_blocklisted",
+                                     "bindgen/ir/item.rs: Item::is_blocklisted; <Item as IsOpaque>::is_opaque, <Type as IsOpaque>::is_opaque (unit opaque: opaque exactly by annotation, by an --opaque-type name match, or through the type: Opaque kind, opaque instantiation / compound / referenced type)",
+                                     "bindgen/codegen/mod.rs: the tail of CompInfo::codegen (unit layout, statement R18): an opaque record with a known layout gets exactly one field, a blob of exactly the C size and alignment, and repr(align)",
                                      "bindgen/codegen/mod.rs: the `packed` decision of CompInfo::codegen (an opaque blob never carries `packed` next to its repr(align))",
                                      "bindgen/ir/analysis/derive.rs: CannotDerive::constrain_type (first rule: an item outside the allowlisted set gets exactly what blocklisted_type_implements_trait says, before any other rule)"],
         "assumptions": [
